@@ -167,6 +167,30 @@ func genC19(h *H) {
 		term := []string{"eof", "other7"}[h.rng.Intn(2)]
 		h.do(class+"-"+term, "keygen", hx(data), term, patterns[h.rng.Intn(len(patterns))], strconv.Itoa(h.rng.Intn(2)))
 	}
+	// long runs of rejected blocks (a bounded retry loop, a counter that wraps, a buffer that fills up):
+	// the FIRST valid block after any number of rejections is the key, and exactly the bytes up to it are consumed
+	for _, run := range []int{4, 7, 8, 9, 15, 16, 17, 31, 32, 33, 63, 64, 65, 100, 127, 128, 129, 255, 256, 257, 300 + h.rng.Intn(700)} {
+		var data []byte
+		for j := 0; j < run; j++ {
+			switch (j + run) % 4 {
+			case 0:
+				data = append(data, make([]byte, 32)...)
+			case 1:
+				data = append(data, be32(curveN)...)
+			case 2:
+				data = append(data, be32(new(big.Int).Add(curveN, big.NewInt(1)))...)
+			default:
+				data = append(data, bytesRepeat(0xff, 32)...)
+			}
+		}
+		for _, tail := range [][]byte{be32(big.NewInt(7)), nil, h.randBytes(32), h.randBytes(5)} {
+			for _, term := range []string{"eof", "other7"} {
+				d := append(append([]byte{}, data...), tail...)
+				d = append(d, h.randBytes(3)...)
+				h.do("long-rejection-run", "keygen", hx(d), term, patterns[run%len(patterns)], strconv.Itoa(run%2))
+			}
+		}
+	}
 	// failure after every byte offset 0..96 in front of an all-invalid and of a valid stream
 	valid := append(append(make([]byte, 32), be32(curveN)...), be32(big.NewInt(5))...)
 	for off := 0; off <= 96; off++ {
